@@ -113,7 +113,7 @@ func isRequestOpSlice(t types.Type) bool {
 }
 
 func checkC02(w *World, r *Report) {
-	r.Decides = "C02 is decided in its structural part only: (a) the operation list applied on the compare-true edge is the transaction's Success list and on the other edge the Failure list (through the handler's call site), the two applications exclude each other and the reported flag/result equals the compare outcome on each edge, for the write path, the read-only path and the table layer; (b) the predicates are evaluated before any operation of the branch and on the batch/snapshot the operations use; (c) from every 'predicate failed' edge of the compare helper (missing key, empty range, a key of the range or the key itself failing the comparison, a failed term of the conjunction) only `return false` is reachable, and the operator table compares the stored value (left) with the given one for each of the four operators; (d) every operation arm appends exactly one response per iteration; (e) the read-only path uses one snapshot for predicates and operations; (f) a transaction is classified read-only only if every operation of both lists is a range read, and only then is it served by the read path / locally on a follower."
+	r.Decides = "C02 is decided in its structural part only: (a) the operation list applied on the compare-true edge is the transaction's Success list and on the other edge the Failure list (through the handler's call site), the two applications exclude each other and the reported flag/result equals the compare outcome on each edge, for the write path, the read-only path and the table layer; (b) the predicates are evaluated before any operation of the branch and on the batch/snapshot the operations use; (c) from every 'predicate failed' edge of the compare helper (missing key, empty range, a key of the range or the key itself failing the comparison, a failed term of the conjunction) only `return false` is reachable, and the operator table compares the stored value (left) with the given one for each of the four operators; (d) every operation arm appends exactly one response per iteration; (e) the read-only path uses one snapshot for predicates and operations; (f) a transaction is classified read-only only if every operation of both lists is a range read, and only then is it served by the read path / locally on a follower; (g) every operation of the executed branch - and every command around the transaction in a sequence or apply call - is applied: no counted loop of the apply path stops early with success or skips elements (C01.i)."
 	r.NotDecided = []string{"the values predicates and operations evaluate to", "isolation inside Pebble", "equality of the answers of the read-only and the write path"}
 	r.Assume = []string{"C01.a-d hold inside the transaction (same context and batch)", "bytes.Compare returns -1, 0 or 1"}
 	a := w.FsmAnchors()
@@ -134,6 +134,7 @@ func checkC02(w *World, r *Report) {
 	c02Responses(w, r, a)
 	c02OneSnapshot(w, r, a, "C02.e", "e-one-snapshot")
 	c02Readonly(w, r, a)
+	applyLoopComplete(w, r, a, "C02.g", "g-every-operation-applied")
 }
 
 // findCompareSplit finds, in fn, the call of the compare helper, its boolean result and the If on it.
@@ -692,6 +693,37 @@ func c02OperatorTable(w *World, ob *Ob, fn *ssa.Function) {
 		if !seen[n] {
 			ob.Violate("operator-missing/"+n, fn.Pos(), "the operator table has no case for "+n)
 		}
+	}
+	// what decides whether a predicate is evaluated at all: only its target kind and the presence
+	// of a compare value - never the content of that value (a predicate against the empty value is
+	// a predicate)
+	for _, b := range fn.Blocks {
+		iff, ok := b.Instrs[len(b.Instrs)-1].(*ssa.If)
+		if !ok {
+			continue
+		}
+		l, ok := ctx.CondLit(iff.Cond)
+		if !ok || l.Kind != "int" || l.IsNE || l.Lo != l.Hi || !strings.HasSuffix(l.Terms, ".Result") {
+			continue
+		}
+		for d := b.Idom(); d != nil; d = d.Idom() {
+			dif, ok := d.Instrs[len(d.Instrs)-1].(*ssa.If)
+			if !ok {
+				continue
+			}
+			dl, ok := ctx.CondLit(dif.Cond)
+			if !ok {
+				ob.Violate("predicate-gate", dif.Cond.Pos(), "whether a predicate is evaluated depends on an opaque condition")
+				continue
+			}
+			switch {
+			case dl.Kind == "int" && (strings.HasSuffix(dl.Terms, ".Target") || strings.HasSuffix(dl.Terms, ".Result")):
+			case dl.Kind == "eq" && dl.B == "nil" && strings.HasSuffix(dl.A, ".TargetUnion"):
+			default:
+				ob.Violate("predicate-gate", dif.Cond.Pos(), "whether a value predicate is evaluated depends on `"+dl.String()+"`: for the inputs that fail it the predicate counts as satisfied")
+			}
+		}
+		break
 	}
 }
 
